@@ -29,6 +29,8 @@ var (
 	ChainNoP   = Chain{"nop", 4, []int{30, 30}, nil}
 	ChainBig   = Chain{"big", 4, []int{60, 59}, []int{61}}
 	ChainMid5  = Chain{"mid5", 5, []int{30, 30, 30}, []int{30, 30}}
+	// ChainTiny: the smallest NTT-friendly primes (bits 0 = smallest), so that residues of public points collide easily
+	ChainTiny = Chain{"tiny", 4, []int{0, 0, 0}, []int{0}}
 )
 
 // Moduli returns distinct primes of the requested sizes.
